@@ -11,6 +11,10 @@ open TD
 
 -- `del` with the KeyError swallowed -----------------------------------------------------------
 
+theorem delIf_deadline {ν : Type} (td : TD Key ν) (k : Key) : (delIf td k).deadline = td.deadline := by
+  unfold delIf TD.del
+  cases alookup k td.items <;> rfl
+
 theorem delIf_lookup_self {ν : Type} (c : TD Key ν) (k : Key) : alookup k (delIf c k).items = none := by
   unfold delIf TD.del
   cases hl : alookup k c.items with
@@ -239,8 +243,33 @@ theorem feed_pass_options {T now : Nat} {sp : TD Key Msg} {req m : Msg}
 -- closed forms of Message._extract_block ---------------------------------------------------------
 
 theorem extractBlock_none {a : Resp} {num szx mps : Nat}
-    (h : a.payload.length ≤ extractStart num szx) : extractBlock a num szx mps = none := by
-  simp [extractBlock, h]
+    (h : a.payload.length ≤ extractStart num szx) (h0 : 0 < extractStart num szx) :
+    extractBlock a num szx mps = none := by
+  simp [extractBlock, h, h0]
+
+/-- when a representation has to be cut and the governing block starts at or beyond its end, that
+block is not block 0 (the `and start > 0` of `_extract_block` makes no difference to
+`extract_or_insert`) -/
+theorem start_pos_of_chunking {m : Msg} {len : Nat} (hc : needsChunking m len = true)
+    (hout : len ≤ extractStart (governing m).num (governing m).szx) :
+    0 < extractStart (governing m).num (governing m).szx := by
+  rcases Nat.eq_zero_or_pos (extractStart (governing m).num (governing m).szx) with h | h
+  · exfalso
+    rw [h] at hout
+    have hl : len = 0 := by omega
+    subst hl
+    unfold needsChunking at hc
+    cases hb : m.block2 with
+    | none => simp [hb] at hc
+    | some b =>
+      simp only [hb, Nat.not_lt_zero, decide_false, Bool.false_or, ne_eq, decide_not,
+        Bool.not_eq_eq_eq_not, Bool.not_true, decide_eq_false_iff_not] at hc
+      simp only [governing, hb, extractStart] at h
+      split at h
+      · omega
+      · have : 0 < 2 ^ (b.szx + 4) := Nat.pow_pos (by omega)
+        rcases Nat.mul_eq_zero.mp h with h | h <;> omega
+  · exact h
 
 theorem take_stop (p : Bytes) (start size : Nat) :
     ((p.drop start).take ((if start + size < p.length then start + size else p.length) - start)) =
@@ -258,7 +287,7 @@ theorem extractBlock_some {a : Resp} {num szx mps : Nat}
              block2 := some { num := num, szx := szx,
                               more := decide (extractStart num szx + extractSize szx mps
                                         < a.payload.length) } } := by
-  have hn : ¬ a.payload.length ≤ extractStart num szx := by omega
+  have hn : ¬ (a.payload.length ≤ extractStart num szx ∧ extractStart num szx > 0) := by omega
   simp only [extractBlock, ge_iff_le, hn, ↓reduceIte, hc, take_stop, Bool.false_eq_true,
     Option.some.injEq]
   congr 2
@@ -285,7 +314,7 @@ theorem extract_fresh {T now : Nat} {c : TD Key Resp} {req : Msg} {render : Msg 
     {a : Resp} (hf : isFresh req = true) (hr : render req = .ok a) :
     extractOrInsert T now c req render =
       if needsChunking req a.payload.length then
-        (c.set T now (blockKey req) a, sliceOf a req, true)
+        ((delIf c (blockKey req)).set T now (blockKey req) a, sliceOf a req, true)
       else (delIf c (blockKey req), .ok a, true) := by
   simp [extractOrInsert, hf, hr]
 
@@ -293,6 +322,13 @@ theorem extract_fresh {T now : Nat} {c : TD Key Resp} {req : Msg} {render : Msg 
 theorem extract_fresh_raised {T now : Nat} {c : TD Key Resp} {req : Msg} {render : Msg → Outcome}
     {code : Nat} (hf : isFresh req = true) (hr : render req = .error code) :
     extractOrInsert T now c req render = (delIf c (blockKey req), .raised code, true) := by
+  simp [extractOrInsert, hf, hr]
+
+/-- the handler returns something that is no message: answered 5.00, nothing stays kept -/
+theorem extract_fresh_junk {T now : Nat} {c : TD Key Resp} {req : Msg} {render : Msg → Outcome}
+    (hf : isFresh req = true) (hr : render req = .junk) :
+    extractOrInsert T now c req render =
+      (delIf c (blockKey req), .raised INTERNAL_SERVER_ERROR, true) := by
   simp [extractOrInsert, hf, hr]
 
 theorem isFresh_later {req : Msg} {b : Blk} (h : req.block2 = some b) (h0 : b.num ≠ 0) :
